@@ -627,3 +627,12 @@ M("C18", "cli-anypin-default-true", "adm_ledger.py",
         default=True,''')
 M("C18", "cli-sgx-dispatch-changepin-to-unlock", "adm_sgx.py",
   '''        "changepin": do_changepin,''', '''        "changepin": do_unlock,''')
+M("C03", "revert-fix-rlp-encode-recursion", "ledger/block_utils.py",
+  '''    try:
+        block_without_mm_fields_rlp = rlp.encode(block_without_mm_fields)
+    except Exception as e:
+        # E.g., fields nested too deeply to encode (but not to decode)
+        raise ValueError(e)
+''',
+  '''    block_without_mm_fields_rlp = rlp.encode(block_without_mm_fields)
+''')
